@@ -180,9 +180,11 @@ class Run:
         self.kinds = kinds
         raising = [nme for nme in allnames if self.rules[nme]['kind'] in pegenc.RAISING_KINDS]
         self.raising = raising
-        if raising and not cfg['raise_allowed']:
-            # the grammar could throw: "never throws" is then not a structural fact
-            self.inconclusive.append('grammar contains raising rules although the property demands it never throws: %s' % raising[:3])
+        # the grammar could throw: "never throws" is then not a structural fact; every main task then also asks the solver for a string
+        # on which a raising rule is reached (sat -> replayed on the real parser -> violation; unsat for every n <= N -> unreachable within the bound)
+        self.raise_query = bool(raising and not cfg['raise_allowed'])
+        if self.raise_query:
+            self.notes.append('grammar contains raising rules although the property demands it never throws (%s): reachability of a raise is decided by the solver for every length' % raising[:3])
 
     def load_known(self):
         path = os.environ.get('VERIF_KNOWN_FINDINGS', os.path.join(VERIF, 'known_findings.json'))
@@ -286,7 +288,7 @@ class Run:
                             start=start, known_start=kstart, timeout_s=float(os.environ.get('PEG2SMT_TIMEOUT', cfg['timeout_s'][self.tier])), seed=self.seed,
                             k_samples=cfg['k_samples'][self.tier], engines=engines, work=self.work,
                             cost=weight * cfg['growth'] ** n)
-                ts.append(dict(base, mode='main'))
+                ts.append(dict(base, mode='main', raise_goal=self.raise_query))
                 if kstart:
                     ts.append(dict(base, mode='confirm', k_samples=0, engines=['z3'] if n <= both else ['cvc5'], cost=base['cost'] / 50))
         ts.sort(key=lambda t: -t['cost'])
@@ -323,6 +325,16 @@ class Run:
                         self.validation['mismatches'].append({'side': 'rfc(z3 model)', 'top': r['top'], 'bytes': s['bytes'], 'encoder': s['rfc'], 'recogniser': rf})
                     if len(self.samples_out) < 40 and s['class'] in ('peg_accept', 'peg_raise'):
                         self.samples_out.append({'top': r['top'], 'n': r['n'], 'class': s['class'], 'string': repr(bytes(s['bytes']))[2:-1], 'real': rv, 'rfc_derives': rf})
+            if r.get('raise_status') not in (None, 'sat', 'unsat'):
+                self.inconclusive.append('%s: no verdict on the reachability of a raising rule: %s' % (tag, r.get('raise_status')))
+            if r.get('raise_status') == 'sat':
+                w = bytes(r['raise_witness'])
+                nv = len(self.violations)
+                (rv, rf), = self.real_and_rfc([(r['top'], w)])      # check_exception() records the violation if the real parser throws
+                if rv in ('accept', 'reject'):
+                    self.inconclusive.append('%s: solver witness %r for a reachable raise not reproduced (real=%s): encoder bug' % (tag, w, rv))
+                elif len(self.violations) > nv:
+                    self.violations[-1]['mode'] = 'solver (raise reachable)'
             if st == 'sat':
                 w = bytes(r['witness'])
                 (rv, rf), = self.real_and_rfc([(r['top'], w)])
